@@ -3,6 +3,7 @@
 from __future__ import annotations
 
 import ast
+import re
 
 from ..decision import Evaluator, Hooks, vtext
 from ..flow import provenance, stmt_of
@@ -64,7 +65,24 @@ def r1(ctx):
     assoc, cb, _ = find_visitor(repo)
     evc = [c for c in cb.calls() if isinstance(c.func, ast.Attribute) and c.func.attr == "evaluate_for_platform"]
     kw = next((u(k.value) for k in evc[0].keywords if k.arg == "filename"), None) if evc else None
-    ctx.soft(kw == f"self._get_realpath({assoc.params[1]})", "finder:ParserState.associate:filename-canonical", f"nodes must be evaluated with filename=self._get_realpath(<file>): got {kw}", cb.loc())
+    # decided on the visitor's decision table (a local of the enclosing function that names the canonical path is that path)
+    from ..spec import tab as _tab, vt as _vt
+
+    want = (f"self._get_realpath({assoc.params[1]})", f"os.path.realpath({assoc.params[1]})")
+    n_ev = 0
+    for p in _tab(cb, unroll=1):
+        for k_ in list(p.atoms) + [str(e[1]) for e in p.effects if e[0] == "call"]:
+            t_ = _vt(k_)
+            i_ = t_.find(".evaluate_for_platform(")
+            if i_ < 0:
+                continue
+            m_ = re.search(r"filename=([^,()]*(\([^()]*\))?[^,()]*)", t_[i_:])
+            n_ev += 1
+            got = m_.group(1).strip() if m_ else None
+            ctx.check(got in want, "finder:ParserState.associate:filename-canonical", f"nodes must be evaluated with filename=self._get_realpath(<file>): two spellings of one file would keep separate include / once state: got filename={got}", cb.loc())
+            break
+    if not n_ev:
+        raise AnalysisError("associate: no call of evaluate_for_platform in the visitor's decision table")
     # FileParser opens the canonical path it was given
     ins = ps.find_method("insert_file")
     fp = [c for c in ins.calls() if (dotted(c.func) or "").endswith("FileParser")]
